@@ -3,11 +3,16 @@ import RimeModel.Gen.ApiGuards
 import RimeModel.Session.Sites
 import RimeModel.Session.WellFormed
 import RimeModel.Session.ComposeOK
+import RimeModel.Session.GeoProc
+import RimeModel.Session.GeoLoop
 /-!
 C01 — no API call sequence crashes, hangs or corrupts memory.  Property theorems only.  CLAIMED PARTIAL:
 the theorems cover (1) the guard table of the API entry points and the get/free ownership pairs, both
-regenerated from rime_api_impl.h on every run, and (2) the partial operations of the modelled context /
-processor / API code in every reachable session state.  Memory safety, exception safety and termination of
+regenerated from rime_api_impl.h on every run, (2) the partial operations of the modelled context /
+processor / API code in every reachable session state, (3) the geometry of the composition in every reachable
+state (segments tile a prefix of the composition's input, so every `substr(seg.start, seg.end - seg.start)` is
+in range; hypothesis `TranslateGeo` on the translators), and (4) termination of the segmentation loop of
+ConcreteEngine::CalculateSegmentation with the abc + fallback segmentors.  Memory safety, exception safety and termination of
 everything outside the model (dictionary translators, OpenCC, regex, switcher, component constructors on
 malformed schemas) is exhibited only by the sanitizer runs of the check.
 -/
@@ -114,5 +119,170 @@ example : exec ["session"] [.check "session", .use "session"] = .returnedEarly :
 example :
     let fp : FreePair := { getFn := "g", freeFn := "f", allocFields := ["a", "b[]"], freeFields := ["b[]", "a"], clears := true }
     (freeObj fp { owned := [("a", 1), ("b[]", 2), ("b[]", 3)] }).2 = [2, 3, 1] ∧ fp.ok = true := by decide
+
+/-! ### geometry of the composition: every `substr(seg.start, seg.end - seg.start)` is in range, and the
+segmentation loop terminates -/
+
+/-- **the geometric invariant holds in every reachable state** (generic form).  For every environment whose
+recomposition function maps a contiguous segment list to a contiguous one lying within the new composition
+input (`ComposeGeoSpec`), every finite sequence of API calls from a session without segments leaves a
+composition whose segments tile a prefix of the composition's input: the first starts at 0, each starts
+where the previous one ends, `start ≤ end` for each, every candidate of a segment's menu ends at or after
+the segment's start, and every `end` is at most the length of the composition's input. -/
+theorem geometry_reachable (env : Env) (hrc : ComposeGeoSpec env.recompose) (c0 : Ctx)
+    (h0 : c0.comp.segs = []) (ops : List Op) : GeoInv (runOps env c0 ops) :=
+  runOps_geo hrc ops (geoInv_of_no_segs h0)
+
+/-- **the same for the modelled engine**: `ComposeGeoSpec` is discharged for the concrete port of
+`ConcreteEngine::Compose` (Reset, abc + fallback segmentors, TranslateSegments) with any alphabets and any
+translation oracle satisfying `TranslateGeo` (candidates produced for a segment with `start ≤ end` end at or
+after the segment's start — an ASSUMPTION about the translators, which are outside the model). -/
+theorem geometry_reachable_concrete (env : Env) (cfg : SegCfg) (henv : env.recompose = compose cfg)
+    (htr : TranslateGeo cfg) (c0 : Ctx) (h0 : c0.comp.segs = []) (ops : List Op) :
+    GeoInv (runOps env c0 ops) :=
+  geometry_reachable env (by rw [henv]; exact compose_geo_spec cfg htr) c0 h0 ops
+
+/-- **every `input_.substr(seg.start, seg.end - seg.start)` is in range** (Composition::GetCommitText /
+GetPreedit / GetScriptText / GetDebugText, ConcreteEngine::TranslateSegments).  In every reachable state, for
+the segment `g` at any index `i` of the composition: `g.start ≤ g.end ≤ |composition input|` — so `pos =
+g.start` meets `std::string::substr`'s precondition `pos ≤ size()`, the count `g.end - g.start` does not wrap
+around, and the slice is not clipped (it has exactly `g.end - g.start` bytes); the first segment starts at 0
+and the next segment, if any, starts at `g.end`. -/
+theorem substr_in_range (env : Env) (hrc : ComposeGeoSpec env.recompose) (c0 : Ctx)
+    (h0 : c0.comp.segs = []) (ops : List Op) (i : Nat) (g : Seg)
+    (hg : (runOps env c0 ops).comp.segs[i]? = some g) :
+    let c := runOps env c0 ops
+    g.start ≤ g.stop ∧ g.stop ≤ c.comp.input.length ∧
+      (substr c.comp.input g.start (g.stop - g.start)).length = g.stop - g.start ∧
+      (i = 0 → g.start = 0) ∧ (∀ g', c.comp.segs[i + 1]? = some g' → g'.start = g.stop) := by
+  have hinv := geometry_reachable env hrc c0 h0 ops
+  generalize runOps env c0 ops = c at hinv hg
+  have hmem : g ∈ c.comp.segs := List.mem_of_getElem? hg
+  have h1 := (hinv.geo.seg hmem).1
+  have h2 := hinv.bounded g hmem
+  refine ⟨h1, h2, ?_, ?_, ?_⟩
+  · unfold substr
+    rw [List.length_take, List.length_drop]
+    omega
+  · intro hi
+    subst hi
+    exact hinv.geo.2.1 g (by rw [List.head?_eq_getElem?]; exact hg)
+  · intro g' hg'
+    exact hinv.geo.1.getElem?_succ i g g' hg hg'
+
+/-- **the segments tile the input**: in every reachable state the slices `substr(seg.start, seg.end -
+seg.start)` of the segments, concatenated in order, are exactly the composition's input up to the last
+segment's end (nothing skipped, nothing read twice) -/
+theorem slices_tile_input (env : Env) (hrc : ComposeGeoSpec env.recompose) (c0 : Ctx)
+    (h0 : c0.comp.segs = []) (ops : List Op) :
+    let c := runOps env c0 ops
+    (c.comp.segs.map (Seg.slice c.comp.input)).flatten = c.comp.input.take c.comp.currentEnd :=
+  slices_flatten _ (geometry_reachable env hrc c0 h0 ops).geo
+
+/-- **the `while (!segments->HasFinishedSegmentation())` loop of CalculateSegmentation terminates.**
+`LoopRun cfg caret c r` is the loop's big-step semantics without fuel (it holds iff the loop, started on
+`c`, exits after finitely many rounds leaving `r`).  For every composition `c` whose segments are contiguous
+(`GeoOK` — in particular the composition Compose hands to the loop in any reachable state, see
+`compose_loop_terminates`) and every fuel ≥ `|input| - current start` (the model passes `|input| + 2`):
+`segLoop` returns the result of a complete run, that result is the only one the loop can produce, more fuel
+never changes it, and it satisfies the loop's own exit condition (segmentation finished, or the last round
+did not advance, or it started at or after the caret).  Measure: a round after which the loop continues
+moves the current start strictly to the right, and it stays left of the input's end. -/
+theorem segmentation_loop_terminates (cfg : SegCfg) (caret : Nat) (c : Comp) (h : GeoOK c.segs) (fuel : Nat)
+    (hf : c.input.length - c.currentStart ≤ fuel) :
+    let r := segLoop cfg caret fuel c
+    LoopRun cfg caret c r ∧ (∀ r', LoopRun cfg caret c r' → r' = r) ∧
+      (∀ k, segLoop cfg caret (fuel + k) c = r) ∧
+      (r.hasFinishedSegmentation = true ∨
+        ∃ c0, r = segStep cfg c0 ∧ c0.hasFinishedSegmentation = false ∧
+          (c0.currentStart = r.currentEnd ∨ caret ≤ c0.currentStart)) := by
+  have ht := segLoop_terminates cfg caret h hf
+  exact ⟨ht.1, fun r' hr' => hr'.unique ht.1, ht.2, ht.1.exit⟩
+
+/-- **the fuel of the model's Compose is never what stops the loop.**  For every contiguous old composition
+(every state in which the engine recomposes: `GeoPre`), every raw input and caret: the composition that
+`Compose` hands to the loop after its `Reset`s is contiguous and within its input, the model's `compose` is
+`TranslateSegments ∘ (Trim / Forward) ∘ loop` on it, the loop run with the model's fuel `|input| + 2` is a
+complete run, and any larger fuel gives the same composition. -/
+theorem compose_loop_terminates (cfg : SegCfg) (input : Bytes) (caret : Nat) (c : Comp) (h : GeoOK c.segs) :
+    let c2 := resetStage input caret c
+    let r := segLoop cfg caret (c2.input.length + 2) c2
+    GeoOK c2.segs ∧ Bounded c2 ∧
+      compose cfg input caret c = translateSegments cfg (forwardIfSelected (trimUnlessPlaceholder r)) ∧
+      LoopRun cfg caret c2 r ∧ ∀ k, segLoop cfg caret (c2.input.length + 2 + k) c2 = r := by
+  have h2 := resetStage_geo h input caret
+  have ht := segLoop_terminates cfg caret h2.1 (fuel := (resetStage input caret c).input.length + 2) (by omega)
+  exact ⟨h2.1, h2.bounded, rfl, ht.1, ht.2⟩
+
+/-- the loop in every reachable state: whatever the client does next, the composition of a reachable state is
+a legal starting point of `compose_loop_terminates` -/
+theorem reachable_loop_terminates (env : Env) (cfg : SegCfg) (henv : env.recompose = compose cfg)
+    (htr : TranslateGeo cfg) (c0 : Ctx) (h0 : c0.comp.segs = []) (ops : List Op) (input : Bytes) (caret : Nat) :
+    let c2 := resetStage input caret (runOps env c0 ops).comp
+    LoopRun cfg caret c2 (segLoop cfg caret (c2.input.length + 2) c2) ∧
+      ∀ k, segLoop cfg caret (c2.input.length + 2 + k) c2 = segLoop cfg caret (c2.input.length + 2) c2 :=
+  let hc := compose_loop_terminates cfg input caret (runOps env c0 ops).comp
+    (geometry_reachable_concrete env cfg henv htr c0 h0 ops).geo
+  ⟨hc.2.2.2.1, hc.2.2.2.2⟩
+
+/-- non-vacuity of `GeoOK` / `Bounded`: a two-segment composition over `abc`, the first segment carrying a
+menu with a partial candidate -/
+example :
+    let g1 : Seg := { status := .selected, start := 0, stop := 2, length := 2,
+                      menu := some [Cand.mk [65] [] [] 0 2 true, Cand.mk [66] [] [] 0 1 true] }
+    let g2 : Seg := { status := .guess, start := 2, stop := 3, length := 1, menu := some [] }
+    let c : Comp := { input := [97, 98, 99], segs := [g1, g2] }
+    GeoOK c.segs ∧ Bounded c := by
+  intro g1 g2 c
+  refine ⟨⟨⟨rfl, trivial⟩, ?_, ?_⟩, ?_⟩
+  · intro g hg; simp only [c, List.head?_cons, Option.some.injEq] at hg; subst hg; rfl
+  · intro g hg
+    simp only [c, List.mem_cons, List.mem_nil_iff, or_false] at hg
+    rcases hg with rfl | rfl
+    · refine ⟨by decide, ?_⟩
+      intro l hl cd hcd
+      simp only [g1, Option.some.injEq] at hl
+      subst hl
+      simp only [List.mem_cons, List.mem_nil_iff, or_false] at hcd
+      rcases hcd with rfl | rfl <;> decide
+    · refine ⟨by decide, ?_⟩
+      intro l hl cd hcd
+      simp only [g2, Option.some.injEq] at hl
+      subst hl
+      simp at hcd
+  · intro g hg
+    simp only [c, List.mem_cons, List.mem_nil_iff, or_false] at hg
+    rcases hg with rfl | rfl <;> decide
+
+/-- non-vacuity of `TranslateGeo`: the echo translator (one candidate spanning the segment) satisfies it -/
+example :
+    let cfg : SegCfg := { alphabet := [97], initials := [97], finals := [], delimiters := [],
+                          translate := fun _ g => [Cand.mk [65] [] [] g.start g.stop true] }
+    TranslateGeo cfg := by
+  intro cfg inp g hg cd hcd
+  simp only [cfg] at hcd
+  simp only [List.mem_cons, List.mem_nil_iff, or_false] at hcd
+  subst hcd
+  exact hg
+
+/-- non-vacuity of the termination theorem: on `a,a` (alphabet `a`) the loop runs three rounds — abc segment,
+raw segment for the comma, abc segment — and with fuel 1 the model would have stopped after the first -/
+example :
+    let cfg : SegCfg := { alphabet := [97], initials := [97], finals := [], delimiters := [], translate := fun _ _ => [] }
+    let c : Comp := { input := [97, 44, 97], segs := [] }
+    (segLoop cfg 3 (c.input.length - c.currentStart) c).segs.map (fun g => (g.start, g.stop, g.tags.abc, g.tags.raw))
+        = [(0, 1, true, false), (1, 2, false, true), (2, 3, true, false)] ∧
+      (segLoop cfg 3 1 c).segs.map (fun g => (g.start, g.stop)) = [(0, 1), (1, 1)] := by
+  decide
+
+/-- non-vacuity of the reachability theorems: typing `a`, `,`, `a` through the speller-less API (`set_input`)
+reaches a three-segment composition -/
+example :
+    let cfg : SegCfg := { alphabet := [97], initials := [97], finals := [], delimiters := [],
+                          translate := fun _ g => [Cand.mk [65] [] [] g.start g.stop true] }
+    let env : Env := { recompose := compose cfg }
+    (runOps env {} [.setInput [97, 44, 97]]).comp.segs.map (fun g => (g.start, g.stop)) = [(0, 1), (1, 2), (2, 3)] := by
+  decide
+
 
 end C01
